@@ -245,6 +245,17 @@ def plan(plan, tier, seed):
                                                     what="detach_variable_value preserves kind and value"),
     }
     plan.kani.append(dict(package="mech-interpreter", filters=["vkc05_"], harness=hmap, timeout=2400, replay_entry="vkreplay_c05"))
+    # 'a statement that fails leaves every existing binding exactly as before': for an indexed assignment the binding is
+    # the sink matrix the kernel writes in place, so the clause is the .atomic obligation of the assignment kernels (proved
+    # or refuted in C04); two representative kernels are re-checked here so that this check reports the finding as well
+    try:
+        from units import vmat, vC04
+        sub = {k_: vC04.K[k_] for k_ in ("assign_1d_scalar", "set_1d_range", "assign_2d_all_scalar")}
+        what = dict(vC04.MODES)
+        what["atomic"] = "%s (struct %s): if the indexed assignment fails, the binding it writes through is unchanged (C05: a failing statement leaves every binding as before)"
+        vmat.add_units(plan, "C05", sub, vC04.PATH, what, atomic=True, out="sink", only_modes=["atomic"])
+    except Exception as e:
+        plan.anchor_errors.append(("C05.verus.*.atomic", repr(e)))
     plan.functions += ["src/core/src/program/symbol_table.rs: SymbolTable::{get,get_mutable,contains,insert}",
                        "src/interpreter/src/statements.rs: name guards of variable_define and variable_assign (fragments), detach_variable_value"]
     plan.trusted += ["Verus / Z3 with vstd's std HashMap specification (group_hash_axioms)", "Kani / CBMC"]
